@@ -1171,10 +1171,43 @@ fn size_upper_bound(m: &Message) -> usize {
     let rec = |r: &Record| wire_name_len(&r.name) + 10 + r.data.to_bytes().map(|b| b.len()).unwrap_or(0) + rdata_names(&r.data).iter().map(|n| wire_name_len(n)).sum::<usize>();
     let mut s = 12 + m.queries.iter().map(|q| wire_name_len(&q.name) + 4).sum::<usize>();
     s += m.answers.iter().chain(m.authorities.iter()).chain(m.additionals.iter()).map(rec).sum::<usize>();
-    s + 11 + 4 * 64 + 300
+    s + m.edns.as_ref().map(|e| 11 + Record::from(e).data.to_bytes().map(|b| b.len()).unwrap_or(0)).unwrap_or(0) + m.signature.as_ref().map(|t| wire_name_len(&t.name) + 10 + 300 + t.data.mac.len() + t.data.other.len()).unwrap_or(0)
 }
 
 const OVERFLOW: &str = "C02-reencode-overflow";
+const SVCB_PORT: &str = "C02-svcb-port-trailing";
+
+/// SVCB/HTTPS RDATA (uncompressed target) with every over-long `port` (key 3) value cut to two
+/// octets; None when no port parameter is longer than 2 or the RDATA does not parse
+fn svcb_port_cut(rd: &[u8]) -> Option<Vec<u8>> {
+    let mut p = 2;
+    loop {
+        let c = *rd.get(p)? as usize;
+        if c == 0 {
+            p += 1;
+            break;
+        }
+        if c > 63 {
+            return None;
+        }
+        p += 1 + c;
+    }
+    let mut out = rd.get(..p)?.to_vec();
+    let mut cut = false;
+    while p + 4 <= rd.len() {
+        let key = be16(rd, p)?;
+        let len = be16(rd, p + 2)? as usize;
+        let val = rd.get(p + 4..p + 4 + len)?;
+        if key == 3 && len > 2 {
+            out.extend_from_slice(&[0, 3, 0, 2, val[0], val[1]]);
+            cut = true;
+        } else {
+            out.extend_from_slice(&rd[p..p + 4 + len]);
+        }
+        p += 4 + len;
+    }
+    (cut && p == rd.len()).then_some(out)
+}
 
 /// checks (b) and (c) on an accepted byte string; Err((why, known class))
 fn oracle_bytes(b: &[u8]) -> Result<(), (String, Option<String>)> {
@@ -1248,7 +1281,10 @@ fn oracle_bytes(b: &[u8]) -> Result<(), (String, Option<String>)> {
             continue; // stated: compressed originals are expanded
         }
         if d1 != d2 {
-            return Err((format!("(c) RDATA of record {i} (type {}) not preserved byte for byte: {} -> {}", x.ty, hex(d1), hex(d2)), None));
+            // narrow class: SVCB/HTTPS whose `port` SvcParam is longer than 2 octets; the decoder keeps the
+            // first two and silently drops the rest, everything else in the RDATA is preserved
+            let known = (x.ty == 64 || x.ty == 65) && svcb_port_cut(d1).as_deref() == Some(d2);
+            return Err((format!("(c) RDATA of record {i} (type {}) not preserved byte for byte: {} -> {}", x.ty, hex(d1), hex(d2)), known.then(|| SVCB_PORT.to_string())));
         }
     }
     Ok(())
